@@ -474,7 +474,7 @@ var configs = map[string]config{
 	// constraint met by a longer traversal whose root name is the keyword; more static
 	// blocks than the maximum next to a dynamic block of the same type
 	"tf-oddkeys": {
-		Root: map[string]string{"main.tf": "locals {\n  which = \"a\\\"b\"\n  picked = aws_instance.k[*].tags[local.which]\n  odd = {\n    (\"pk\") = 1\n    (true ? null : \"nk\") = 2\n    (false ? \"fk\" : null) = 3\n    \"e\\\"k\" = 4\n    true = 5\n    null = 6\n    plain = { (\"in\") = [1, { (true ? null : \"x\") = 2 }] }\n  }\n}\n\nresource \"aws_instance\" \"k\" {\n  ami           = \"a\"\n  instance_type = \"t\"\n  tags = {\n    (\"Name\") = \"n\"\n    (true ? null : \"Env\") = \"e\"\n    \"a\\\"b\" = \"q\"\n    (local.missing) = \"m\"\n    (nope()) = \"f\"\n    plain = \"p\"\n  }\n  cpu = {\n    (\"cores\") = 2\n    \"thr\\u0065ads\" = 4\n  }\n  lifecycle {\n    ignore_changes = all.items\n  }\n}\n\nresource \"aws_instance\" \"k2\" {\n  ami           = \"a\"\n  instance_type = \"t\"\n  lifecycle {\n    ignore_changes = all[0]\n  }\n  network_interface {\n    device_index = 0\n  }\n  network_interface {\n    device_index = 1\n  }\n  network_interface {\n    device_index = 2\n  }\n  dynamic \"network_interface\" {\n    for_each = []\n    content {\n      device_index = 3\n    }\n  }\n  cpu = {\n    cores = 1\n    threads = 2\n    (local.odd) = 3\n  }\n  routes = [{ cidr = \"a\", cidr = \"b\", gateway = \"g\" }]\n}\n\nresource \"aws_instance\" \"k3\" {\n  ami           = \"a\"\n  instance_type = \"t\"\n  ebs_block_device {\n    device_name = \"d\"\n    tag_spec {\n      key = \"a\"\n    }\n    tag_spec {\n      key = \"b\"\n    }\n  }\n  monitoring = length(self.ebs_block_device[0].tag_spec[0]) > 0\n  count_hint = length(self.ebs_block_device[0].tag_spec[1])\n  passphrase = 42 + 43\n  pair       = [local.which, 2]\n  token      = \"id-${10 + 2}\"\n  secret     = !true\n}\n"},
+		Root: map[string]string{"main.tf": "locals {\n  which = \"a\\\"b\"\n  picked = aws_instance.k[*].tags[local.which]\n  odd = {\n    (\"pk\") = 1\n    (true ? null : \"nk\") = 2\n    (false ? \"fk\" : null) = 3\n    \"e\\\"k\" = 4\n    true = 5\n    null = 6\n    plain = { (\"in\") = [1, { (true ? null : \"x\") = 2 }] }\n  }\n}\n\nresource \"aws_instance\" \"k\" {\n  ami           = \"a\"\n  instance_type = \"t\"\n  tags = {\n    (\"Name\") = \"n\"\n    (true ? null : \"Env\") = \"e\"\n    \"a\\\"b\" = \"q\"\n    (local.missing) = \"m\"\n    (nope()) = \"f\"\n    plain = \"p\"\n  }\n  cpu = {\n    (\"cores\") = 2\n    \"thr\\u0065ads\" = 4\n  }\n  lifecycle {\n    ignore_changes = all.items\n  }\n}\n\nresource \"aws_instance\" \"k2\" {\n  ami           = \"a\"\n  instance_type = \"t\"\n  lifecycle {\n    ignore_changes = all[0]\n  }\n  network_interface {\n    device_index = 0\n  }\n  network_interface {\n    device_index = 1\n  }\n  network_interface {\n    device_index = 2\n  }\n  dynamic \"network_interface\" {\n    for_each = []\n    content {\n      device_index = 3\n    }\n  }\n  cpu = {\n    cores = 1\n    threads = 2\n    (local.odd) = 3\n  }\n  routes = [{ cidr = \"a\", cidr = \"b\", gateway = \"g\" }]\n}\n\nresource \"aws_instance\" \"k3\" {\n  ami           = \"a\"\n  instance_type = \"t\"\n  ebs_block_device {\n    device_name = \"d\"\n    tag_spec {\n      key = \"a\"\n    }\n    tag_spec {\n      key = \"b\"\n    }\n  }\n  monitoring = length(self.ebs_block_device[0].tag_spec[0]) > 0\n  count_hint = length(self.ebs_block_device[0].tag_spec[1])\n  passphrase = 42 + 43\n  pair       = [local.which, 2]\n  token      = \"id-${10 + 2}\"\n  secret     = !true\n}\n\noutput \"neg\" {\n  value = element([1, 2], -local.which )\n}\n"},
 	},
 	"tf-child-only": {
 		Root:  map[string]string{"main.tf": "module \"kid\" {\n  source = \"./child\"\n  name   = \"n\"\n}\n\noutput \"g\" {\n  value = module.kid.greeting\n}\n"},
